@@ -7,6 +7,9 @@ CONSTANTS
   MaxStreamss = {1}
   NDg = 2
   DgCap = 1
+  DgReaders = 2
+  DgWakeAll = TRUE
+  FinishWakes = TRUE
   AllowReset = FALSE
   AllowStop = FALSE
   AllowLoss = TRUE
